@@ -44,12 +44,15 @@ def _box_filter(name, wav_lo, wav_hi, cw, n=5, desc=False):
 
 def expected_convolved(spec, f):
     """(flux, error) [n_models, n_ap] the statement prescribes for filter f (independent oracle)."""
-    nu = (spec.wav * u.micron).to(u.Hz, equivalencies=u.spectral()).value
-    order = np.argsort(nu)
     fnu = f.nu.to(u.Hz).value
-    R = expected_bins(fnu, np.asarray(f.response), nu[order])
-    flux = np.einsum('mak,k->ma', spec.flux[:, :, order], R)
-    err = np.sqrt(np.einsum('mak,k->ma', spec.error[:, :, order] ** 2, R ** 2))
+    flux = np.zeros(spec.flux.shape[:2])
+    err = np.zeros(spec.flux.shape[:2])
+    for i in range(spec.n_models):
+        nu = (spec.wav_of(i) * u.micron).to(u.Hz, equivalencies=u.spectral()).value
+        order = np.argsort(nu)
+        R = expected_bins(fnu, np.asarray(f.response), nu[order])
+        flux[i] = spec.flux[i][:, order] @ R
+        err[i] = np.sqrt((spec.error[i][:, order] ** 2) @ (R ** 2))
     return flux, err
 
 
@@ -68,13 +71,26 @@ def c07_one(rec, case):
                            name_fmt=c.get('name_fmt', 'model_{0:04d}'))
     if c.get('sorted_names_reversed'):
         spec.par_order = list(np.argsort(spec.names)[::-1])
+    versions = (1, 2)
+    if c.get('mixed_grids'):
+        # SED files on two different wavelength grids with the same size and the same end points, in the
+        # order A B B A A... (per-file format only)
+        w = np.sort(spec.wav)
+        t_ = np.linspace(0., 1., len(w))
+        wb = w[0] * (w[-1] / w[0]) ** (t_ ** 1.3)
+        wb[0], wb[-1] = w[0], w[-1]
+        if c['wav_desc']:
+            w, wb = w[::-1], wb[::-1]
+        pat = [0, 1, 1, 0, 0, 1, 0, 1]
+        spec.wavs = [(w if pat[i % 8] == 0 else wb) for i in range(spec.n_models)]
+        versions = (1,)
     filters = [_box_filter('FA', 1., 3., 2., n=int(c['nf']), desc=c['f_desc']), _box_filter('FB', 8., 30., 15., n=4, desc=not c['f_desc']),
                _box_filter('FC', 40., 90., 60., n=3)]
     filters = filters[:c['n_filters']]
     res = {}
     ok = True
     with pkg.scratch() as d:
-        for ver in (1, 2):
+        for ver in versions:
             md = os.path.join(d, 'v%d' % ver)
             os.makedirs(md)
             (pkg.write_v1 if ver == 1 else pkg.write_v2)(md, spec)
@@ -82,6 +98,12 @@ def c07_one(rec, case):
                 with pkg.quiet():
                     if c.get('two_calls') and len(filters) > 1:
                         convolve_model_dir(md, filters[:1], memmap=c['memmap'])
+                        if c.get('postprocess_between'):
+                            # a fit and a parameter listing in the same process between two convolve calls
+                            from sedfitter import write_parameters
+                            ft0 = Fitter([filters[0].name], [2.] * u.arcsec, md, extinction_law=pkg.simple_extinction(), av_range=(0., 10.),
+                                         distance_range=[0.8, 1.6] * u.kpc, use_memmap=False)
+                            write_parameters(ft0.fit(pkg.make_source('s', [1], [1.], [0.1])), os.path.join(d, 'pp.txt'), select_format=('A', 0))
                         convolve_model_dir(md, filters[1:], memmap=c['memmap'])
                     else:
                         convolve_model_dir(md, filters, memmap=c['memmap'])
@@ -134,7 +156,7 @@ def run_c07(tier, seed):
     for t in range(n):
         case = dict(seed=seed, tag='c07', pseed=int(rng.integers(1, 10 ** 6)), n_models=int(rng.integers(1, 9)), n_ap=int(rng.integers(1, 6)), n_wav=int(rng.integers(12, 40)),
                     wav_desc=bool(t % 2), f_desc=bool((t // 2) % 2), nf=int(rng.integers(3, 9)), n_filters=1 + t % 3, memmap=bool((t // 3) % 2), two_calls=bool(t % 4 == 1),
-                    fit=bool(t % 3 == 2), sorted_names_reversed=bool(t % 5 == 3))
+                    fit=bool(t % 3 == 2), sorted_names_reversed=bool(t % 5 == 3), mixed_grids=bool(t % 4 == 2), postprocess_between=bool(t % 8 == 1))
         try:
             c07_one(rec, case)
         except Exception as e:
@@ -345,7 +367,10 @@ def c10_one(rec, case):
         eligible = [s for s in fx['sources'] if int(np.sum((s.valid == 1) | (s.valid == 4))) >= c['n_data_min']]
         if not eligible:
             return True
-        recs, meta = read_all(fx['out'])
+        try:
+            recs, meta = read_all(fx['out'])
+        except EOFError:
+            recs, meta = [], None
         ok &= rec.expect([r.source.name for r in recs] == [s.name for s in eligible], 'one_record_per_eligible_source',
                          'file has records for %s, expected one record for each of %s (n_data_min=%d, selector=%r)' % ([r.source.name for r in recs], [s.name for s in eligible], c['n_data_min'], sel), case)
         if not ok:
